@@ -216,6 +216,8 @@ class Ctx:
         self.query_timeout_ms = 10000
         self.max_decisions = 400
         self.max_inline_depth = 6
+        self.max_symbolic_while = 3
+        self.deadline = None
         self.keep_smt2 = False
         self.contracts = {}        # key (module, qualname) -> call-site contract
         self.inputs = {}           # name -> z3 term (symbolic inputs to concretise from models)
@@ -539,9 +541,15 @@ class Interp:
             self.exec_block(st.orelse, env, module)
 
     def st_While(self, st, env, module):
-        n = 0
+        n = sym = 0
         while True:
-            if not self.decide(self.eval(st.test, env, module), f"while@{st.lineno}"):
+            t = self.truth(self.eval(st.test, env, module))
+            if not isinstance(t, bool):
+                sym += 1
+                if sym > self.ctx.max_symbolic_while:
+                    raise Unsupported(f"while loop at line {st.lineno} iterates on a symbolic condition (needs a loop invariant)")
+                t = self.p.branch(t, f"while@{st.lineno}")
+            if not t:
                 self.exec_block(st.orelse, env, module)
                 return
             n += 1
@@ -1196,9 +1204,13 @@ def _concrete_list_items(t):
 def explore(run, ctx, max_paths=3000):
     """Enumerate all feasible paths of `run(path)`. Returns list of (path, outcome) where outcome is
     ('return', value) | ('raise', PyRaise) | ('unsupported', msg)."""
+    import time as _time
     work = [[]]
     results = []
     while work:
+        if ctx.deadline is not None and _time.time() > ctx.deadline:
+            results.append((Path([], ctx), ("unsupported", "time budget for this function exhausted")))
+            break
         dec = work.pop()
         p = Path(dec, ctx)
         try:
